@@ -10,7 +10,11 @@
 //!             the driver runs the model in that profile (kept out of the payload so that the same image
 //!             under two profiles is not counted as two distinct cases)
 //!   expect  = `ok` | `NoCount` | `NoInfo` | `MissingName` | `OutOfRange` | `~` (malformed: only "no panic")
-//!   D/S/L   = the content the image was built from (data region as serialized, string cells, labels)
+//!   D/S/L   = the content the image was built from (data region as serialized incl. the c-string pool,
+//!             string cells, labels); ordinary pointers and c-strings planted in spare cells (destination 0,
+//!             == data size, anywhere) are not part of the arc content and must not disturb extraction;
+//!             a nameless record = name cell that is a plain word / an ordinary pointer into the data /
+//!             a pointer exactly to the end of the data / a c-string cell
 //!   F       = the files in record order
 //! Implementation line: `ok <n> (<name-hex> <body-hex>)*` sorted by name | `err <Class>` | `panic`
 //!   Class = NoCount | NoInfo | MissingName | OutOfBounds | Other
@@ -79,9 +83,16 @@ fn build(rng: &mut Rng, kind: Kind) -> Built {
         files[n - 1].0 = files[0].0.clone();
     }
 
-    // sections: 0 = count cell, 1 = table, 2+i = body i
-    let mut sections: Vec<usize> = (0..n + 2).collect();
+    // sections: 0 = count cell, 1 = table, 2+i = body i, n+2+j = spare cell j (a 4-byte cell that
+    // will carry an ordinary pointer or a pending c-string: annotations the arc reader must ignore)
+    let n_spare = match rng.below(4) {
+        0 => 0,
+        1 => 1,
+        _ => rng.range(1, 3),
+    } as usize;
+    let mut sections: Vec<usize> = (0..n + 2 + n_spare).collect();
     rng.shuffle(&mut sections);
+    let mut spares: Vec<usize> = Vec::new();
     let base = if padded { 0x60 } else { 0 };
     let mut pos = base;
     let mut data: Vec<u8> = vec![0; base];
@@ -140,6 +151,16 @@ fn build(rng: &mut Rng, kind: Kind) -> Built {
                     pos += 16 * n;
                 }
             }
+            _ if s >= n + 2 => {
+                if pos % 4 != 0 && !rng.chance(1, 6) {
+                    let p = align4(pos) - pos;
+                    data.extend(vec![0xEE; p]);
+                    pos += p;
+                }
+                spares.push(pos);
+                data.extend([0u8; 4]);
+                pos += 4;
+            }
             _ => {
                 let i = s - 2;
                 let body = &files[i].1;
@@ -150,7 +171,7 @@ fn build(rng: &mut Rng, kind: Kind) -> Built {
                         // not inside the table / count cell (their bytes change when cells are written)
                         let a = base + p;
                         let clash = |lo: usize, len: usize| a < lo + len && lo < a + body.len();
-                        if !clash(info_addr, 16 * n) && !clash(count_addr, 4) {
+                        if !clash(info_addr, 16 * n) && !clash(count_addr, 4) && !spares.iter().any(|sp| clash(*sp, 4)) {
                             offs[i] = a - base;
                             placed = true;
                         }
@@ -178,12 +199,35 @@ fn build(rng: &mut Rng, kind: Kind) -> Built {
         data.push(0xDD);
     }
     let data_len = data.len();
+    let bad = if n > 0 { rng.below(n as u64) as usize } else { 0 };
+
+    // annotations that are not part of the arc content, planned before the records are final
+    // because pending c-strings are serialized into a pool appended to the data region:
+    // spare cells get an ordinary pointer (destination 0 / end of data / anywhere) or a c-string
+    let spare_plan: Vec<(u64, String)> =
+        spares.iter().map(|_| (rng.below(5), super::pack::sub_name(rng, 6))).collect();
+    // the nameless record (kind MissingName): (a) plain word, (b) pointer into the data,
+    // (c) pointer exactly to the end of the data, (d) c-string cell
+    let mn_variant = rng.below(4);
+    let mut cstrs: Vec<Vec<u8>> = Vec::new();
+    for (k, t) in &spare_plan {
+        if *k == 4 {
+            cstrs.push(super::pack::sjis_sub(t));
+        }
+    }
+    if kind == Kind::MissingName && mn_variant == 3 {
+        cstrs.push(super::pack::sjis_sub(&files[bad].0));
+    }
+    cstrs.sort();
+    cstrs.dedup();
+    let pool = align4(cstrs.iter().map(|c| c.len() + 1).sum::<usize>());
+    // size of the data region of the serialized image (what the parser will see)
+    let final_len = data_len + pool;
 
     // error variants that change the records
-    let bad = if n > 0 { rng.below(n as u64) as usize } else { 0 };
     let mut sizes: Vec<usize> = files.iter().map(|f| f.1.len()).collect();
     if kind == Kind::OutOfRange {
-        let avail = data_len - base; // bytes after the header
+        let avail = final_len - base; // bytes after the header
         match rng.below(6) {
             0 => {
                 // offset far away, near 2^32 (D9: must not wrap around)
@@ -230,10 +274,34 @@ fn build(rng: &mut Rng, kind: Kind) -> Built {
         if !(kind == Kind::MissingName && i == bad) {
             a.write_string(r, Some(&files[i].0)).unwrap();
             strings.push((r, files[i].0.clone()));
+        } else {
+            // a record without a name: its name cell is not a string cell
+            match mn_variant {
+                // (a) the cell is a plain data word (absent from the pointer table)
+                0 => {}
+                // (b) the cell holds an ordinary pointer into the data region
+                1 => a.write_pointer(r, Some(rng.below(final_len as u64) as usize)).unwrap(),
+                // (c) ... a pointer exactly to the end of the data region (a legal destination;
+                //     value == data size is the boundary between "pointer" and "text offset")
+                2 => a.write_pointer(r, Some(final_len)).unwrap(),
+                // (d) the cell carries a pending c-string (serialized as a pointer into the pool
+                //     appended to the data), not a string
+                _ => a.write_c_string(r, files[i].0.clone()).unwrap(),
+            }
         }
         a.write_u32(r + 4, rng.next() as u32).unwrap();
         a.write_u32(r + 8, sizes[i] as u32).unwrap();
         a.write_u32(r + 12, offs[i] as u32).unwrap();
+    }
+    // spare cells: pointers with destination 0, == data size (end of the data region), anywhere
+    // up to the end, or a c-string; none of them may disturb extraction
+    for (sp, (k, t)) in spares.iter().zip(spare_plan.iter()) {
+        match *k {
+            0 => a.write_pointer(*sp, Some(0)).unwrap(),
+            1 | 2 => a.write_pointer(*sp, Some(final_len)).unwrap(),
+            3 => a.write_pointer(*sp, Some(rng.below(final_len as u64 + 1) as usize)).unwrap(),
+            _ => a.write_c_string(*sp, t.clone()).unwrap(),
+        }
     }
     // labels (in a random order of calls)
     let mut want: Vec<(usize, String)> = Vec::new();
@@ -271,7 +339,9 @@ fn build(rng: &mut Rng, kind: Kind) -> Built {
         }
     }
     let img = a.serialize().unwrap();
-    // files as the records declare them (for the error kinds the declared sizes differ from the bodies)
+    // the data block as serialized: the c-string pool (if any) has been appended to the data
+    let data_len = u32::from_le_bytes([img[4], img[5], img[6], img[7]]) as usize;
+    assert_eq!(data_len, final_len, "c-string pool size mispredicted");
     Built { img, data_len, strings, labels, files, padded, count_addr, info_addr }
 }
 
@@ -333,6 +403,7 @@ fn gen_inner(seed: u64, tier: &str) -> Vec<String> {
         (Kind::NoInfo, "NoInfo"),
         (Kind::NoBoth, "NoCount"),
         (Kind::MissingName, "MissingName"),
+        (Kind::MissingName, "MissingName"),
         (Kind::OutOfRange, "OutOfRange"),
         (Kind::OutOfRange, "OutOfRange"),
     ] {
@@ -370,7 +441,8 @@ fn gen_inner(seed: u64, tier: &str) -> Vec<String> {
                 // bit flip in the tables after the data (pointer table, label table); the text
                 // pool is left alone (the sub-codec of the model does not cover damaged text)
                 let lo = 0x20 + b.data_len;
-                let hi = lo + 4 * b.strings.len() + 8 * b.labels.len();
+                let np = u32::from_le_bytes([b.img[8], b.img[9], b.img[10], b.img[11]]) as usize;
+                let hi = lo + 4 * np + 8 * b.labels.len();
                 if hi > lo && hi <= b.img.len() {
                     let p = lo + rng.below((hi - lo) as u64) as usize;
                     b.img[p] ^= 1 << rng.below(8);
